@@ -36,7 +36,7 @@ Theorem list_outputs_exact_thm : forall c i, f_lc (c_flags c) = false ->
     /\ (forall q, is_dir (f' q) = true -> exists p, In p out /\ path_in q (parents p) = true).
 Proof. intros c i. apply (list_outputs_exact_gen the_code the_guards the_chk_outputs the_chk_stable). Qed.
 
-Theorem list_inputs_partial_thm : forall c i, f_lc (c_flags c) = false -> rejected c = false ->
+Theorem list_inputs_partial_thm : forall c i, f_lc (c_flags c) = false -> rejected c = false -> ns_clash the_code c i = false ->
   eff_trig_lookup the_code i = false -> eff_trig_tpl the_code c i = false -> eff_trig_sup the_code c = false ->
   (k_fix_suptpl the_code || support_consistent c) = true ->
   forall x, In x (influence_set the_code c i) ->
@@ -45,7 +45,8 @@ Proof. intros c i. apply (list_inputs_partial_gen the_code the_guards the_chk_in
 
 Theorem list_inputs_complete_thm :
   k_fix_lookup the_code = true -> k_fix_nonj2 the_code = true -> k_fix_suptpl the_code = true ->
-  forall c i, f_lc (c_flags c) = false -> rejected c = false -> trig_py the_code c i = false -> trig_sup_refs the_code c = false ->
+  forall c i, f_lc (c_flags c) = false -> rejected c = false -> ns_clash the_code c i = false ->
+  trig_py the_code c i = false -> trig_sup_refs the_code c = false ->
   forall x, In x (all_influences the_code c i) -> is_config_input c x = false ->
   forall f, exists out, run the_code (li_of c) i f = (f, out, Ok) /\ In x out.
 Proof. exact (list_inputs_complete_gen the_code the_guards the_chk_inputs the_chk_stable). Qed.
@@ -98,7 +99,7 @@ Proof. vm_compute. repeat split; reflexivity. Qed.
    unreferenced p/u out, contains the dependency r/B *)
 Lemma example_partial_hyps :
   let c := w_cfg SAsNeeded false None None in
-  rejected c = false /\ eff_trig_lookup the_code w_inputs_plain = false /\ eff_trig_tpl the_code c w_inputs_plain = false
+  rejected c = false /\ ns_clash the_code c w_inputs_plain = false /\ eff_trig_lookup the_code w_inputs_plain = false /\ eff_trig_tpl the_code c w_inputs_plain = false
   /\ eff_trig_sup the_code c = false /\ support_consistent c = true /\ trig_py the_code c w_inputs_plain = false
   /\ trig_sup_refs the_code c = false
   /\ path_in [[114]; [66]] (influence_set the_code c w_inputs_plain) = true
@@ -140,6 +141,17 @@ Lemma example_failures :
   /\ snd (run the_code c2 w_inputs_plain fs_empty) = Ok /\ snd (run the_code c2 w_inputs_plain f2) = Exists
   /\ snd (run the_code c2 w_inputs_plain f3) = IoError.
 Proof. vm_compute. repeat split; reflexivity. Qed.
+
+(* a namespace file stem spelled like a type's file name (--namespace-output-stem A next to type A): refused in every mode
+   before anything is listed or written -- where the tree has the check *)
+Definition w_cfg_clash : cfg :=
+  {| c_lang := w_lang; c_flags := w_flags SNever false; c_ext := None; c_stem := Some [65]; c_templates := None;
+     c_support_templates := None; c_config_files := []; c_outdir := [[111]] |}.
+Lemma example_ns_clash : k_ns_check the_code = true ->
+  run the_code (real_of w_cfg_clash) w_inputs_plain fs_empty = (fs_empty, [], NsClash)
+  /\ snd (run the_code (lo_of w_cfg_clash) w_inputs_plain fs_empty) = NsClash
+  /\ snd (fst (run the_code (li_of w_cfg_clash) w_inputs_plain fs_empty)) = [].
+Proof. intros H. unfold run. cbn [real_of lo_of li_of]. unfold ns_clash. cbn [with_flags c_flags]. rewrite H. vm_compute. repeat split; reflexivity. Qed.
 
 (* two custom templates with the same basename in different sub-directories are both listed *)
 Definition w_nested_dir : list tfile :=
